@@ -310,11 +310,12 @@ def c17_random(run, quick, binp, tdir, nrandom, scopes, total_acc, total_rej, al
     nontriv = {in_hash(a) for a, b in allpairs if c17_entries(a) >= 2}
     run.cov["distinct_nontrivial"] = max(0, len(nontriv) - total_vac)
     run.cov["vacuous_inadmissible_random_inputs"] = total_vac
-    run.cov["exhaustive"] = [n for n, _ in scopes]
+    run.cov["exhaustive_scopes"] = [n for n, _ in scopes]
+    run.cov["exhaustive"] = False  # the scopes in exhaustive_scopes ARE exhaustive (every input executed and decided); the run adds seeded random inputs on top
     run.cov["rule"] = ("evaluations = cases (input fed to the real compact.Iter + its complete output) on which TLC evaluated "
                        "Compacted(in,out), i.e. all cases minus those whose input TLC judged contract-inadmissible; "
                        "distinct_nontrivial = distinct inputs (content hash) holding >= 2 internal keys/spans, minus the inadmissible count "
-                       "(lower bound). Scopes listed in 'exhaustive' are fully enumerated by TLC and each emitted input was executed; "
+                       "(lower bound). Scopes listed in 'exhaustive_scopes' are fully enumerated by TLC and each emitted input was executed; "
                        "random inputs: seeded, K=3 user keys, seqnums 1..6, all point kinds (three kind mixes: plain, SETWITHDEL/SINGLEDEL-heavy, "
                        "DELSIZED-heavy), 1..3 keys sharing the seqnums, <=2 range deletions, <=3 range keys, snapshot subsets of 1..7 "
                        "drawn with density 0/10/35 percent, elision none/partial/all/all+bottommost.")
@@ -441,13 +442,14 @@ def run_c32(run):
     nontriv = {in_hash(a) for a, b in allpairs if sum(len(l) for l in json.loads(a)["c"]["levels"]) >= 2}
     run.cov["distinct_nontrivial"] = max(0, len(nontriv) - total_vac)
     run.cov["vacuous_inadmissible_random_inputs"] = total_vac
-    run.cov["exhaustive"] = [n for n, _ in scopes]
+    run.cov["exhaustive_scopes"] = [n for n, _ in scopes]
+    run.cov["exhaustive"] = False  # the scopes in exhaustive_scopes ARE exhaustive (every input executed and decided); the run adds seeded random inputs on top
     run.cov["rule"] = ("evaluations = cases (spans + operation fed to the real keyspan code, and the fragments it produced in forward and backward "
                        "iteration plus, at every boundary, SeekGE/SeekLT each followed by Next and by Prev) on which TLC evaluated Fragmented(in,out); "
                        "distinct_nontrivial = distinct inputs with >= 2 spans, minus the inadmissible count. Operations: Fragmenter.Add/Truncate/Finish, "
                        "keyspan.Truncate over the fragmented spans, keyspanimpl.MergingIter over per-level fragmented spans, DefragmentingIter with "
                        "keyspan.DefragmentInternal and with the user-iteration method (rangekeystack.UserIteratorConfig.ShouldDefragment), and "
-                       "MergingIter -> DefragmentingIter(DefragmentInternal) as in the compaction input. Scopes in 'exhaustive' are fully enumerated by TLC; "
+                       "MergingIter -> DefragmentingIter(DefragmentInternal) as in the compaction input. Scopes in 'exhaustive_scopes' are fully enumerated by TLC; "
                        "random inputs: seeded, 7 boundaries, <=5 spans with <=2 keys of all three range-key kinds, 3 levels; fragmented inputs whose "
                        "neighbouring fragments differ in no or exactly one field (value, suffix, seqnum, kind) of one key.")
     for a, b in (allpairs[len(allpairs) // 3], rpairs[1], rpairs[len(rpairs) // 2]):
@@ -565,11 +567,12 @@ def run_c16(run):
     nontriv = {in_hash(a) for a, b in allpairs if len(json.loads(a)["c"]["files"]) >= 2}
     run.cov["distinct_nontrivial"] = max(0, len(nontriv) - total_vac)
     run.cov["vacuous_inadmissible_random_inputs"] = total_vac
-    run.cov["exhaustive"] = [n for n, _ in scopes]
+    run.cov["exhaustive_scopes"] = [n for n, _ in scopes]
+    run.cov["exhaustive"] = False  # the scopes in exhaustive_scopes ARE exhaustive (every input executed and decided); the run adds seeded random inputs on top
     run.cov["rule"] = ("evaluations = cases (an L0 file set with compacting marks given to the real newL0Sublevels, to addL0Files at every split point "
                        "one file at a time and in one chunk, and to PickBaseCompaction / PickIntraL0Compaction for minCompactionDepth 1..3 and every "
                        "earliestUnflushedSeqNum) on which TLC evaluated L0Ok(in,out); distinct_nontrivial = distinct inputs with >= 2 files minus the "
-                       "inadmissible count. Scopes in 'exhaustive' are fully enumerated by TLC; random: seeded, 6 user keys, <=7 files.")
+                       "inadmissible count. Scopes in 'exhaustive_scopes' are fully enumerated by TLC; random: seeded, 6 user keys, <=7 files.")
     for a, b in (allpairs[len(allpairs) // 3], rpairs[1]):
         o = json.loads(b)["o"]
         run.sample({"in": json.loads(a)["c"], "out": {"sub": o["sub"], "incremental_variants": len(o["inc"]), "picks": [p for p in o["picks"] if not p["none"]][:4]}})
